@@ -151,11 +151,17 @@ def run_harness(crate, harness, timeout_s, mem_gb, outdir, playback=False, slot=
     res["n_failed"] = len(failed)
     res["n_discharged"] = len([c for c in res["checks"] if c["status"].upper() in ("SUCCESS", "SATISFIED", "UNREACHABLE")])
     fns = set()
+    files = set()
     for c in res["checks"]:
         f = ((c.get("location") or {}).get("file") or "")
         if c.get("function") and ("/" in f) and not f.startswith("/home/runner") and "/verif/harness" not in f and not f.startswith("src/"):
             fns.add(c["function"])
+            # repo-relative source file of the check (in-crate runs report workspace-relative paths)
+            rel = f[len(REPO) + 1:] if f.startswith(REPO + "/") else re.sub(r"^(\.\./)+repo/", "", f)
+            if not rel.startswith("/") and not rel.startswith("."):
+                files.add(rel)
     res["functions"] = sorted(fns)
+    res["files"] = sorted(files)
     res["covers_total"] = len(covers)
     res["covers_sat"] = len([c for c in covers if c["status"].upper() == "SATISFIED"])
     # keep only what triage needs (a 256-arm dispatch harness carries > 6000 checks)
@@ -186,7 +192,7 @@ def unwind_counterexample(res, unwind, timeout_s=600, mem_gb=10):
     out_json = gf + ".unwind_trace.json"
     cmd = ("cbmc --no-malloc-may-fail --no-undefined-shift-check --no-signed-overflow-check --nan-check "
            "--no-self-loops-to-assumptions --no-pointer-primitive-check --object-bits 16 --unwind %d "
-           "--unwinding-assertions --sat-solver cadical --slice-formula %s --trace --json-ui > %s 2>/dev/null"
+           "--unwinding-assertions --sat-solver cadical %s --trace --json-ui > %s 2>/dev/null"
            % (unwind, gf, out_json))
     sh(cmd, timeout=timeout_s, mem_gb=mem_gb)
     try:
@@ -207,9 +213,13 @@ def unwind_counterexample(res, unwind, timeout_s=600, mem_gb=10):
                 if st.get("stepType") != "assignment":
                     continue
                 fn = (st.get("sourceLocation") or {}).get("function", "")
-                if st.get("lhs", "").startswith("goto_symex$$return_value$$") and fn.startswith("kani::any_raw_internal"):
+                # scalars come from kani::any_raw_internal::<T>, arrays from kani::any_raw_array::<T, N>
+                # (one aggregate assignment, which has no `binary`, followed by one assignment per element)
+                if st.get("lhs", "").startswith("goto_symex$$return_value$$") and fn.startswith("kani::any_raw_"):
                     b = (st.get("value") or {}).get("binary")
-                    if not b or len(b) % 8:
+                    if not b:
+                        continue
+                    if len(b) % 8:
                         return None
                     n = int(b, 2)
                     vals.append(list(n.to_bytes(len(b) // 8, "little")))
